@@ -12,3 +12,4 @@ CONSTANTS
   Faithful = FALSE
 INVARIANTS TypeOK AcceptedRunning NotifiedOncePerChange LockOK
 PROPERTY NoDoubleApply NoRegress FreshAtReturn OnlyReloadApplies
+VIEW StepView
